@@ -149,6 +149,140 @@ def bind_args(callee: FuncDef, call: ast.Call, is_method: bool) -> Optional[Dict
     return env
 
 
+# -- scopes: which function binds a name; single definitions through closures and module-level constants ------------------------
+def scope_chain(m: pf.Module, fn: Optional[FuncDef]) -> List[FuncDef]:
+    return ([fn] + enclosing_funcs(m, fn)) if fn is not None else []
+
+
+def binding_scope(m: pf.Module, fn: Optional[FuncDef], name: str) -> Optional[FuncDef]:
+    """The function whose local `name` is when read in fn (innermost scope that assigns it); None = module level / builtin."""
+    for s in scope_chain(m, fn):
+        if name in assignments(s):
+            return s
+    return None
+
+
+_rebound_cache: Dict[int, Tuple[ast.AST, Set[str]]] = {}
+
+
+def _rebound_elsewhere(m: pf.Module, holder: Optional[FuncDef], name: str) -> bool:
+    """Is `name` of scope `holder` re-bound from a nested function (nonlocal / global)?"""
+    root: ast.AST = holder if holder is not None else m.tree
+    hit = _rebound_cache.get(id(root))
+    if hit is None or hit[0] is not root:
+        names: Set[str] = set()
+        for n in ast.walk(root):
+            if isinstance(n, (ast.Nonlocal, ast.Global)):
+                names |= set(n.names)
+        hit = (root, names)
+        _rebound_cache[id(root)] = hit
+    return name in hit[1]
+
+
+def module_const(m: pf.Module, name: str) -> Optional[ast.expr]:
+    """The value of a module-level name that is assigned exactly once at module level and never re-bound through `global`."""
+    vals = []
+    for st in m.tree.body:
+        if isinstance(st, ast.Assign):
+            for t in st.targets:
+                for x in ast.walk(t):
+                    if isinstance(x, ast.Name) and x.id == name:
+                        vals.append(st.value if isinstance(t, ast.Name) else None)
+        elif isinstance(st, ast.AnnAssign) and isinstance(st.target, ast.Name) and st.target.id == name:
+            vals.append(st.value)
+        elif isinstance(st, (ast.AugAssign,)) and isinstance(st.target, ast.Name) and st.target.id == name:
+            vals.append(None)
+        elif isinstance(st, (ast.FunctionDef, ast.AsyncFunctionDef, ast.ClassDef)) and st.name == name:
+            vals.append(None)
+        elif isinstance(st, (ast.If, ast.Try, ast.With, ast.For, ast.While)):
+            if any(isinstance(x, ast.Name) and x.id == name and isinstance(x.ctx, ast.Store) for x in ast.walk(st) if not isinstance(x, (ast.FunctionDef, ast.AsyncFunctionDef, ast.Lambda))):
+                # assigned conditionally at module level (nested defs are judged by the `global` scan below)
+                if any(isinstance(x, ast.Name) and x.id == name and isinstance(x.ctx, ast.Store) for x in pf.walk_shallow(st)):
+                    vals.append(None)
+    if len(vals) != 1 or vals[0] is None or _rebound_elsewhere(m, None, name):
+        return None
+    return vals[0]
+
+
+def single_def(m: pf.Module, fn: Optional[FuncDef], name: str) -> Tuple[Optional[FuncDef], Optional[ast.AST]]:
+    """(holder scope, the unique defining node) of `name` as read in fn: locals, closure variables of enclosing functions, module-level
+    constants.  (None, None) when the name has several definitions or none that can be followed."""
+    s = binding_scope(m, fn, name)
+    if s is not None:
+        defs = assignments(s).get(name, [])
+        if len(defs) == 1 and not _rebound_elsewhere(m, s, name):
+            return s, defs[0]
+        return s, None
+    v = module_const(m, name)
+    return None, v
+
+
+# -- SQL text of an execute-style call followed through module-level constants / variables of enclosing functions ---------------
+def followed_sql_text(m: pf.Module, fn: Optional[FuncDef], e: ast.expr, depth: int = 0) -> Tuple[Optional[str], List[ast.expr], str]:
+    t, holes, how = sf._sql_of_expr(fn, e)
+    if t is not None or depth > 2:
+        return t, holes, how
+    if isinstance(e, ast.Name):
+        holder, d = single_def(m, fn, e.id)
+        if isinstance(d, ast.expr) and not isinstance(d, ast.Await):
+            t, holes, how = followed_sql_text(m, holder, d, depth + 1)
+            if t is not None:
+                return t, holes, ('variable' if how == 'literal' else how)
+    return None, [], 'opaque'
+
+
+# -- path guards: enclosing ifs AND guard clauses ------------------------------------------------------------------------
+EXITS = (ast.Continue, ast.Break, ast.Return, ast.Raise)
+
+
+def exit_kind(stmts: Sequence[ast.stmt]) -> Optional[str]:
+    """'continue' | 'break' | 'return' | 'raise' | 'mixed' when the block cannot fall through, else None."""
+    if not stmts:
+        return None
+    last = stmts[-1]
+    if isinstance(last, EXITS):
+        return type(last).__name__.lower()
+    if isinstance(last, ast.If) and last.orelse:
+        a, b = exit_kind(last.body), exit_kind(last.orelse)
+        if a and b:
+            return a if a == b else 'mixed'
+    if isinstance(last, (ast.With, ast.AsyncWith)):
+        return exit_kind(last.body)
+    return None
+
+
+def path_guards(m: pf.Module, node: ast.AST, stop: ast.AST) -> List[Tuple[ast.expr, bool, str]]:
+    """(test, polarity, kind) for every condition that must hold for `node` to be reached from the start of `stop`'s body in the same
+    iteration / invocation: kind 'if' = an enclosing if (polarity = which arm), otherwise the exit kind of a guard clause in front of it
+    (`if c: continue` gives (c, False, 'continue'); `if c: .. else: raise` gives (c, True, 'raise'))."""
+    par = m.parents()
+    out: List[Tuple[ast.expr, bool, str]] = []
+    cur: ast.AST = node
+    p = par.get(cur)
+    while p is not None:
+        for fld in ('body', 'orelse', 'finalbody'):
+            b = getattr(p, fld, None)
+            if isinstance(b, list) and any(cur is s for s in b):
+                for s in b:
+                    if s is cur:
+                        break
+                    if isinstance(s, ast.If):
+                        kb, ke = exit_kind(s.body), exit_kind(s.orelse)
+                        if kb and not ke:
+                            out.append((s.test, False, kb))
+                        elif ke and not kb:
+                            out.append((s.test, True, ke))
+                if isinstance(p, ast.If):
+                    out.append((p.test, fld == 'body', 'if'))
+        if isinstance(p, ast.ExceptHandler):
+            pass
+        if p is stop:
+            break
+        cur = p
+        p = par.get(cur)
+    return out
+
+
 # ======================================================================================
 # part 1: scheduler selections seen through helpers
 # ======================================================================================
@@ -167,17 +301,22 @@ class QueryInst:
         self.holder = holder          # the function that textually contains the execute call
         self._stmts: Optional[List[N]] = None
         self.problem: Optional[str] = None
+        # the SQL text: sqlfront follows locals of the calling function only; a text held in a module-level constant or in a variable of an
+        # enclosing function is followed here (the Embedded object itself is left untouched)
+        self.sql_text, self.holes, self.how = emb.sql_text, emb.holes, emb.how
+        if self.sql_text is None and emb.call.args:
+            self.sql_text, self.holes, self.how = followed_sql_text(m, holder, emb.call.args[0])
 
     def stmts(self) -> List[N]:
         if self._stmts is None:
             e = self.emb
-            sql = e.sql_text
+            sql = self.sql_text
             if sql is None:
                 self._stmts, self.problem = [], 'the SQL text is not a literal'
                 return self._stmts
-            if e.how == 'fstring' and e.holes:
+            if self.how == 'fstring' and self.holes:
                 # a hole bound - through the helper's parameters - to a string constant at this call site is spliced in
-                for i, h in enumerate(e.holes):
+                for i, h in enumerate(self.holes):
                     v = const_value(self.holder, subst_names(h, self.env))
                     if not isinstance(v, str):
                         self._stmts, self.problem = [], f'the SQL text has a hole `{pf.nsrc(h)}` that is not bound to a string constant at this call site'
@@ -187,9 +326,14 @@ class QueryInst:
                     self._stmts = parse_statements(sql)
                 except SqlParseError as ex:
                     self._stmts, self.problem = [], f'instantiated SQL does not parse: {ex}'
-            else:
+            elif e.sql_text is not None:
                 self._stmts = e.stmts()
                 self.problem = e.parse_error
+            else:
+                try:
+                    self._stmts = parse_statements(sql)
+                except SqlParseError as ex:
+                    self._stmts, self.problem = [], f'SQL does not parse: {ex}'
         return self._stmts
 
     def bound(self) -> Optional[Dict[int, ast.expr]]:
@@ -236,7 +380,7 @@ def _has_queries(m: pf.Module, fn: FuncDef, seen: Set[int]) -> bool:
     return False
 
 
-def collect_queries(m: pf.Module, top: FuncDef, max_depth: int = 3) -> List[QueryInst]:
+def collect_queries(m: pf.Module, top: FuncDef, max_depth: int = 3, guard_clauses: bool = False) -> List[QueryInst]:
     """Every embedded SQL query reachable from `top`, once per call path, with the helper parameters replaced by the actual
     arguments of that path and the `if` guards of every call site on the path."""
     out: List[QueryInst] = []
@@ -267,7 +411,11 @@ def collect_queries(m: pf.Module, top: FuncDef, max_depth: int = 3) -> List[Quer
                     continue
             for cenv in const_loops(fn, node):
                 env_c = dict(env, **cenv)
-                here = [(subst_names(i.test, env_c), inb) for i, inb in reversed(sr.enclosing_ifs(m, node, stop=fn))]
+                if guard_clauses:
+                    # opt-in: enclosing ifs AND the guard clauses in front of the call (`if c: continue / return / raise` == the rest runs under `not c`)
+                    here = [(subst_names(t_, env_c), pol_) for t_, pol_, _k in reversed(path_guards(m, node, fn))]
+                else:
+                    here = [(subst_names(i.test, env_c), inb) for i, inb in reversed(sr.enclosing_ifs(m, node, stop=fn))]
                 # guard clauses `if c: continue` in front of the call, inside the constant loops
                 if cenv:
                     for l in sr.enclosing_loops(m, node):
@@ -342,8 +490,8 @@ class SchedulerFacts:
 STATES = ['Pending', 'Ready', 'Creating', 'Running', 'Success', 'Failed', 'Error', 'Cancelled']
 
 
-def scheduler_facts(m: pf.Module, fn: FuncDef, what: str) -> SchedulerFacts:
-    insts = collect_queries(m, fn)
+def scheduler_facts(m: pf.Module, fn: FuncDef, what: str, guard_clauses: bool = False) -> SchedulerFacts:
+    insts = collect_queries(m, fn, guard_clauses=guard_clauses)
     for q in insts:
         q.stmts()
         if q.problem:
@@ -1221,6 +1369,7 @@ class StatusProvenance:
         self._esc: Dict[Tuple[int, int], bool] = {}
         self._rets: Dict[int, List[ast.AST]] = {}
         self._appish: Dict[int, bool] = {}
+        self._dbh_attr: Dict[Tuple[int, str], bool] = {}
         self._foreign: Dict[Tuple[str, str], Optional[Tuple[pf.Module, ast.AST]]] = {}
         self.obj_mode = False   # True while the OBJECT an expression denotes is wanted (store targets): values that merely flowed into it by mutation do not count
         self.wrappers: Set[int] = set()   # functions a decorator of this module puts around a reader: checked like readers, but they do not make their name a reader name
@@ -1306,6 +1455,19 @@ class StatusProvenance:
     def resolve(self, fn: FuncDef, call: ast.Call) -> Optional[FuncDef]:
         """resolve_callable, plus functions imported by name from a module of the repository that has been adopted."""
         d = resolve_callable(self.M(fn), fn, call)
+        if d is None and isinstance(call.func, ast.Attribute):
+            # Class(...).method(...) / x = Class(...); x.method(...) for a class of this module
+            recv = call.func.value.value if isinstance(call.func.value, ast.Await) else call.func.value
+            if isinstance(recv, ast.Name) and not isinstance(recv.ctx, ast.Store):
+                defs = assignments(fn).get(recv.id, [])
+                one = defs[0] if len(defs) == 1 else None
+                recv = one.value if isinstance(one, ast.Await) else one
+            if isinstance(recv, ast.Call) and isinstance(recv.func, ast.Name) and not any(recv.func.id in assignments(s_) for s_ in [fn] + enclosing_funcs(self.M(fn), fn)):
+                c = self.MI(fn).defs.get(recv.func.id)
+                if isinstance(c, ast.ClassDef):
+                    for x in c.body:
+                        if isinstance(x, (ast.FunctionDef, ast.AsyncFunctionDef)) and x.name == call.func.attr:
+                            return x
         if d is None and isinstance(call.func, ast.Name) and not self._shadowed(fn, call.func.id):
             t_ = self.foreign_def(fn, call.func.id)
             if t_ is not None and t_[0].rel in self.mods and isinstance(t_[1], (ast.FunctionDef, ast.AsyncFunctionDef)):
@@ -1484,6 +1646,13 @@ class StatusProvenance:
                         self.readers.add(id(f))
                         changed = True
                         break
+            # resolved calls (self.method(...), Class(...).method(...), helpers of adopted modules): the caller of a reader is a reader
+            for q, f in self.funcs:
+                if id(f) in self.readers:
+                    for g, c, is_m in self.sites.get(id(f), []):
+                        if id(g) not in self.readers:
+                            self.readers.add(id(g))
+                            changed = True
         # the wrapper a decorator of this module puts around a reader calls the reader through the decorator's parameter
         for (tid, pname), decorated in self.deco_actuals.items():
             if not any(id(f) in self.readers for f in decorated):
@@ -1668,6 +1837,8 @@ class StatusProvenance:
             if self.appish(fn, e):
                 return {('apph',)}
             if isinstance(e.value, ast.Name) and e.value.id in ('self', 'cls'):
+                if self._self_attr_is_dbh(fn, e.attr, busy):
+                    return {('dbh',)}
                 return {('ret', f'{e.value.id}.{e.attr}', False)}
             if isinstance(e.value, ast.Name) and f'{e.value.id}.{e.attr}' in self.objattr_roots and not any(e.value.id in assignments(s) for s in [fn] + enclosing_funcs(self.M(fn), fn)):
                 return {('ret', f'{e.value.id}.{e.attr}', False)}
@@ -1699,6 +1870,28 @@ class StatusProvenance:
             if isinstance(c, ast.expr):
                 out |= P(c)
         return out
+
+    def _self_attr_is_dbh(self, fn: FuncDef, attr: str, busy: Set[Tuple[Any, ...]]) -> bool:
+        """self.<attr> of the class fn belongs to is the database handle: every assignment to it in the class stores the handle."""
+        c = enclosing_class(self.M(fn), fn)
+        if c is None:
+            return False
+        key = (id(c), attr)
+        hit = self._dbh_attr.get(key)
+        if hit is not None:
+            return hit
+        self._dbh_attr[key] = False   # while it is being decided
+        vals = []
+        for meth in c.body:
+            if isinstance(meth, (ast.FunctionDef, ast.AsyncFunctionDef)):
+                for n in self.nodes_of(meth):
+                    if isinstance(n, (ast.Assign, ast.AnnAssign)) and n.value is not None:
+                        for t in _flatten_targets(n.targets if isinstance(n, ast.Assign) else [n.target]):
+                            if isinstance(t, ast.Attribute) and isinstance(t.value, ast.Name) and t.value.id == 'self' and t.attr == attr:
+                                vals.append((meth, n.value))
+        res = bool(vals) and all(('dbh',) in self.prov(meth, v, 'exp', set()) for meth, v in vals)
+        self._dbh_attr[key] = res
+        return res
 
     def _escapes(self, scope: FuncDef, fn: FuncDef) -> bool:
         """Does the function nested in `scope` on the way to fn outlive the invocation of scope: scope returns a reference to it
